@@ -26,6 +26,8 @@ Inductive obs :=
 | OAbandon (s : nat)    (* a parked call returned with an error without its event ever passing the gate *)
 | OFault                (* the sink's next Write fails *)
 | ODeploy               (* HandleDeploy on the live operator: same runners, fresh storage *)
+| OTimeoutFail (stopped : bool) (evs : list ev)  (* a time-out token delivered while the handler fails its next call;
+                                                    stopped: the operator's Start returned *)
 | OStuck (what : N).
 Inductive case := AlignCase (n : nat) (maxsize : N) (delay : bool) (trace : list obs).
 
@@ -131,6 +133,14 @@ Fixpoint replay (c : cfg) (x : st) (tr : list obs) : list N :=
           end
       | OCancel s => match step c x (Cancel s) with None => [6] | Some x' => replay c x' tr' end
       | OAbandon _ => [8]
+      | OTimeoutFail st evs =>
+          match step c x TimeoutFail with
+          | None => [6]
+          | Some x' =>
+              (if Bool.eqb st (stopped (dt x') && negb (stopped (dt x))) then [] else [9]) ++
+              (if list_eqb ev_eqb evs (step_evs x x') then [] else [4]) ++
+              (if st then [] else replay c x' tr')
+          end
       | OFault => match step c x Fault with None => [6] | Some x' => replay c x' tr' end
       | ODeploy => match step c x Deploy with None => [6] | Some x' => replay c x' tr' end
       | OStuck _ => [7]
@@ -226,6 +236,8 @@ Fixpoint spec (p : sp) (tr : list obs) : list N :=
           (if had_all && all_cut p2 then [16] else []) ++
           spec p2 tr'
       | OTimeout evs => let '(p2, cs) := spec_evs p evs in cs ++ spec p2 tr'
+      | OTimeoutFail st evs =>  (* a stopped operator reports nothing more; one that goes on is judged by its checkpoints *)
+          let '(p2, cs) := spec_evs p evs in cs ++ (if st then [] else spec p2 tr')
       | OFault => spec (mkSp (deliv p) (nhand p) (cuts p) (cur p) (called p) [true]) tr'
       | ODeploy =>  (* a new deployment: nothing delivered, nothing applied, no checkpoint in progress *)
           let n := length (deliv p) in
